@@ -3,10 +3,8 @@
     size") and 5f05f37 ("pruning a consensus state keeps its recent-signer
     entry"), with their witnesses; both were replayed on the real code by the
     C09 check (KNOWN_FINDINGS.txt, "fixed:" entries; the witnesses are now
-    corpus cases of harness/cmd/c09).  Also: the gas-limit bound as the code
-    computes it (int64 casts) differs from the arithmetic bound when the
-    parent's limit does not fit an int64 — possible only for the header a client
-    is created with; that is why C09_gas_bound_arith has that premise. *)
+    corpus cases of harness/cmd/c09), and ff33d14 ("gas-limit bound is computed
+    without int64 casts"). *)
 From Teleport Require Import Base.Bytes Base.Outcome Model.Bsc Model.BscToy.
 Local Open Scope N_scope.
 
@@ -48,13 +46,14 @@ Proof.
   split; [vm_compute; reflexivity|]. vm_compute. reflexivity.
 Qed.
 
-(** The gas-limit test of verifyCascadingFields computes |parent - limit| through int64 casts; for a
-    parent limit of 2^64-1 (a creation-time header nobody validated) a child limit of 5000 passes although
-    the true distance is far beyond parent/256. *)
-Theorem C09_gas_bound_cast_refuted :
+(** Before the repair ff33d14 the gas-limit test of verifyCascadingFields computed |parent - limit| through
+    int64 casts; for a parent limit of 2^64-1 (a creation-time header nobody validated) a child limit of 5000
+    passed although the true distance is far beyond parent/256. *)
+Theorem C09_old_gas_bound_cast_refuted :
   exists parent_limit limit,
-    gas_bound_bad parent_limit limit = false /\ limit <= 9223372036854775807 /\
-    parent_limit / 256 <= parent_limit - limit.
+    gas_bound_bad_old parent_limit limit = false /\ limit <= 9223372036854775807 /\
+    parent_limit / 256 <= parent_limit - limit /\ gas_bound_bad parent_limit limit = true.
 Proof.
-  exists 18446744073709551615, 5000. split; [vm_compute; reflexivity|]. split; vm_compute; discriminate.
+  exists 18446744073709551615, 5000. split; [vm_compute; reflexivity|].
+  split; [vm_compute; discriminate|]. split; [vm_compute; discriminate | vm_compute; reflexivity].
 Qed.
